@@ -2,6 +2,12 @@ package main
 
 // Checks is the registry: which harness entry points decide which property, under which bounds.
 var Checks = []Check{
+	{ID: "C17", Entries: []Entry{
+		{Pkg: "node", Func: "VerifC17Lifecycle", Shards: 3, Params: map[string]int64{"members": 1, "events": 3}, Tier: "", MaxDec: 0,
+			What: "same harness, one member, three events: reaches stop -> start again -> termination (state and reason of a second run)"},
+		{Pkg: "node", Func: "VerifC17Lifecycle", Shards: 3, Params: map[string]int64{"members": 2, "events": 2}, Thorough: map[string]int64{"members": 3, "events": 3},
+			What: "real application.start/stop/terminate with real spawn/Kill/SendExit/process runner/unregisterProcess on a hand-built node, well-behaved fake members; symbolic failing member, member terminations, stop/force-stop, restart"},
+	}},
 	{ID: "C04", Entries: []Entry{
 		{Pkg: "node", Func: "VerifC04History", Shards: 4, Params: map[string]int64{"ops": 3, "mix": 0}, Thorough: map[string]int64{"ops": 4, "mix": 1},
 			What: "symbolic history of link/unlink/monitor/demonitor by two consumers on a target addressed by pid/name/alias/event (real process API, Route*, default target manager), then the target goes away (unregisterProcess, UnregisterName, DeleteAlias, UnregisterEvent): exactly one exit/down per relation held"},
